@@ -348,3 +348,100 @@ package app
 //@   assert_at return#* C09.full_master_key [C09]: reached("GetMaintenance", 1) && resultof("GetMaintenance", 1, 1) == nil && maintenance != nil && maintenance.Mode != LightMode && !reached("enterMaintenance", 1) ==> e_SetMaster == old(e_SetMaster)
 //@   assert_at enterMaintenance#1 C09.enter_only_unacked [C09]: maintenance != nil && !maintenance.MySyncPaused && maintenance.Mode != LightMode && mysqlUntouched() && e_SetActive == old(e_SetActive) && e_DeleteActive == old(e_DeleteActive)
 //@   assert_at return#* C09.full_entered [C09]: reached("enterMaintenance", 1) ==> (result == stateMaintenance || result == stateManager) && (result == stateMaintenance ==> resultof("enterMaintenance", 1) == nil) && switchKeysUntouched() && e_SetWritable == old(e_SetWritable) && e_ChangeMaster == old(e_ChangeMaster) && e_ResetSlaveAll == old(e_ResetSlaveAll) && e_SetReadOnly == old(e_SetReadOnly)
+
+// ---- C01: the switchover procedure ---------------------------------------------------------------------
+
+//@ func (*app.App).emulateError
+//@   flags inline
+
+//@ func app.filterOut
+//@   loop 1 invariant idx: -1 <= rangeindex && rangeindex < len(a)
+//@   loop 1 invariant sub: forall k int :: in_range(k, res) ==> (exists m int :: 0 <= m && m <= rangeindex && res[k] == a[m]) && !contains(b, res[k])
+//@   loop 1 invariant keep: forall m int :: 0 <= m && m <= rangeindex && !contains(b, a[m]) ==> contains(res, a[m])
+//@   loop 1 invariant len: len(res) <= rangeindex + 1
+//@   ensures C04.filter_sub [C04,C01,C11]: forall k int :: in_range(k, res) ==> contains(a, res[k]) && !contains(b, res[k])
+//@   ensures C04.filter_keep [C04,C01,C11]: forall x string :: contains(a, x) && !contains(b, x) ==> contains(res, x)
+//@   ensures C04.filter_len [C04,C01]: len(res) <= len(a)
+
+//@ func (*app.App).performChangeMaster
+//@   requires notself: host != master
+//@   loop 1 invariant eff: e_ChangeMaster == old(e_ChangeMaster) + 1 && e_SetWritable == old(e_SetWritable) && e_ResetSlaveAll == old(e_ResetSlaveAll) && e_SetReadOnly == old(e_SetReadOnly) && e_SetMaster == old(e_SetMaster) && g_ro == old(g_ro) && g_sro == old(g_sro) && g_source[host] == master && ownKeyOnly(host)
+//@   ensures C10.repoint [C10,C01,C16]: result == nil ==> g_source[host] == master
+//@   ensures C10.repoint_frame [C10,C01,C16]: ownKeyOnly(host) && e_ChangeMaster <= old(e_ChangeMaster) + 1
+//@   ensures C10.repoint_noflags [C10,C01]: g_ro == old(g_ro) && g_sro == old(g_sro) && e_SetWritable == old(e_SetWritable) && e_ResetSlaveAll == old(e_ResetSlaveAll) && e_SetReadOnly == old(e_SetReadOnly) && e_SetMaster == old(e_SetMaster)
+
+//@ func (*app.App).CheckAsyncSwitchAllowed
+//@   ensures C01.async_exception [C01]: result ==> app.config.ASync && switchover.Cause == CauseAuto && app.config.AsyncAllowedLag > 0
+//@   ensures C01.async_lag [C01]: result ==> resultof("CalcReplMonTSDelay", 1, 1) == nil && resultof("GetReplMonTS", 1, 1) == nil && resultof("CalcReplMonTSDelay", 1, 0) * 1000000000 < app.config.AsyncAllowedLag
+//@   ensures C01.async_pure [C01]: tick == old(tick)
+
+//@ func (*app.App).waitForCatchUp
+//@   loop 1 invariant noeffect: tick == old(tick)
+//@   ensures C01.caught [C01]: result0 ==> result1 == nil && (sup(lastExecRead[node.host], gtidset) || (app.config.ASync && app.config.AsyncAllowedLag > 0))
+//@   ensures C01.catch_pure [C01]: tick == old(tick)
+//@   assert_at return#* C01.caught_how [C01]: result0 ==> (reached("Contain", 1) && resultof("Contain", 1)) || (reached("CheckAsyncSwitchAllowed", 1) && resultof("CheckAsyncSwitchAllowed", 1))
+
+//@ func (*app.App).getNodePositions$1
+//@   parelem positions e: e.host == host && e.gtidset != nil
+//@   ensures present [par,C01]: result == nil ==> (exists i int :: in_range(i, positions) && positions[i].host == host && positions[i].gtidset != nil)
+//@   ensures C01.pos_noeffect [C01]: tick == old(tick)
+//@   assert_at Lock#1 C01.pos_complete [C01]: (sstatus == nil ==> resultof("GTIDExecutedParsed", 1, 1) == nil && gtidset == resultof("GTIDExecutedParsed", 1, 0)) && (sstatus != nil ==> gtidset == resultof("ParseGtidSet", 1) && textOf(gtidset) == resultof("GetExecutedGtidSet", 1) && (resultof("GetRetrievedGtidSet", 1) != "" ==> reached("Update", 1) && resultof("Update", 1) == nil && g_updated[gtidset] == resultof("GetRetrievedGtidSet", 2))) && resultof("GetReplicaStatus", 1, 1) == nil
+
+//@ func (*app.App).getNodePositions
+//@   ensures C01.pos_all [C01]: result1 == nil ==> (forall h string :: contains(activeNodes, h) ==> (exists i int :: in_range(i, result0) && result0[i].host == h))
+//@   ensures C01.pos_only [C01]: forall i int :: in_range(i, result0) ==> contains(activeNodes, result0[i].host) && result0[i].gtidset != nil
+//@   ensures C01.pos_pure [C01]: tick == old(tick)
+
+//@ define ownKeyOnly(h string) = forall x string :: x != h ==> touched[x] == old(touched)[x] && g_ro[x] == old(g_ro)[x] && g_sro[x] == old(g_sro)[x] && g_offline[x] == old(g_offline)[x] && g_ssMaster[x] == old(g_ssMaster)[x] && g_ssSlave[x] == old(g_ssSlave)[x] && g_source[x] == old(g_source)[x] && g_ioStopped[x] == old(g_ioStopped)[x] && g_sqlStopped[x] == old(g_sqlStopped)[x]
+//@ define noPromoteEffects() = e_SetWritable == old(e_SetWritable) && e_ResetSlaveAll == old(e_ResetSlaveAll) && e_SetMaster == old(e_SetMaster)
+
+//@ func (*app.App).performSwitchover$1
+//@   ensures frozen_ro [par,C01]: result == nil ==> g_ro[host] && clusterState[host].PingOk
+//@   ensures own_key [C01]: ownKeyOnly(host)
+//@   ensures no_promote [C01]: noPromoteEffects() && e_ChangeMaster == old(e_ChangeMaster)
+
+//@ func (*app.App).performSwitchover$2
+//@   ensures frozen_io [par,C01]: result == nil ==> g_ioStopped[host] && clusterState[host].PingOk
+//@   ensures own_key [C01]: ownKeyOnly(host)
+//@   ensures keeps_ro [C01]: g_ro == old(g_ro) && g_sro == old(g_sro) && noPromoteEffects() && e_ChangeMaster == old(e_ChangeMaster)
+
+//@ func (*app.App).performSwitchover$3
+//@   ensures repointed [par,C01,C10]: result == nil && host != newMaster && clusterState[host].PingOk ==> g_source[host] == newMaster
+//@   ensures own_key [C01]: ownKeyOnly(host)
+//@   ensures keeps_ro [C01,C10]: g_ro == old(g_ro) && g_sro == old(g_sro) && noPromoteEffects()
+
+//@ define frozenOK(f []string, active []string, oldMaster string) = forall i int :: in_range(i, f) ==> contains(active, f[i]) && g_ro[f[i]] && (f[i] == oldMaster || g_ioStopped[f[i]])
+
+//@ func (*app.App).performSwitchover
+//@   requires nodev [config]: !app.config.DevMode
+//@   requires nonnil [safety]: switchover != nil
+//@   loop 1 invariant idx: -1 <= rangeindex && rangeindex < len(activeNodes)
+//@   loop 1 invariant frozen_member: forall i int :: in_range(i, frozenActiveNodes) ==> contains(activeNodes, frozenActiveNodes[i])
+//@   loop 1 invariant frozen_ro: forall i int :: in_range(i, frozenActiveNodes) ==> g_ro[frozenActiveNodes[i]]
+//@   loop 1 invariant frozen_io: forall i int :: in_range(i, frozenActiveNodes) ==> frozenActiveNodes[i] == oldMaster || g_ioStopped[frozenActiveNodes[i]]
+//@   loop 1 invariant frozen_len: len(frozenActiveNodes) <= rangeindex + 1
+//@   assert_at CheckFailoverQuorum#1 C01.recount [C01]: callarg0 == old(activeNodes) && callarg1 == len(frozenActiveNodes) && frozenOK(frozenActiveNodes, activeNodes, oldMaster) && (forall x string :: contains(activeNodes, x) ==> contains(old(activeNodes), x)) && noPromoteEffects() && e_ChangeMaster == old(e_ChangeMaster)
+//@   assert_at AcquireLock#1 C01.lock1 [C01,C03]: resultof("CheckFailoverQuorum", 1) == nil
+//@   assert_at getNodePositions#1 C01.positions_of_frozen [C01]: callarg0 == frozenActiveNodes && resultof("AcquireLock", 1)
+//@   assert_at waitForCatchUp#1 C01.catch_target [C01]: callarg0 == newMasterNode && callarg1 == mostRecentGtidSet && !splitbrain && noPromoteEffects()
+//@   assert_at waitForCatchUp#1 C01.catch_covers_frozen [C01]: forall h string :: contains(frozenActiveNodes, h) ==> (exists i int :: in_range(i, positions) && positions[i].host == h && sup(mostRecentGtidSet, positions[i].gtidset))
+//@   assert_at waitForCatchUp#1 C14.not_from [C14,C01]: switchover.To == "" && switchover.From != "" ==> newMaster != switchover.From
+//@   assert_at waitForCatchUp#1 C16.promoted_is_active [C16,C11,C01]: contains(old(activeNodes), newMaster)
+//@   assert_at AcquireLock#2 C01.lock2 [C01,C03]: resultof("waitForCatchUp", 1, 0) && resultof("waitForCatchUp", 1, 1) == nil && noPromoteEffects()
+//@   assert_at SetWritable#1 C01.promote [C01,C03]: callrecv == newMasterNode && resultof("AcquireLock", 1) && resultof("AcquireLock", 2) && resultof("CheckFailoverQuorum", 1) == nil && !splitbrain && resultof("waitForCatchUp", 1, 0) && resultof("ResetSlaveAll", 1) == nil && e_SetWritable == old(e_SetWritable) && e_SetMaster == old(e_SetMaster)
+//@   assert_at SetWritable#1 C01.still_ro [C01]: forall i int :: in_range(i, frozenActiveNodes) && frozenActiveNodes[i] != newMaster ==> g_ro[frozenActiveNodes[i]]
+//@   assert_at writeEmergeFile#1 C01.split_marker [C01]: splitbrain && noPromoteEffects()
+//@   assert_at return#* C01.split_abort [C01]: reached("findMostRecentNodeAndDetectSplitbrain", 1) && resultof("findMostRecentNodeAndDetectSplitbrain", 1, 2) ==> result != nil && e_WriteEmerge == old(e_WriteEmerge) + 1 && noPromoteEffects()
+//@   assert_at StopSlave#1 C11.mark_old_master [C11,C01]: (resultof("GetReplicaStatus", 1, 1) != nil || oldMasterSlaveStatus == nil || resultof("isSlavePermanentlyLost", 1)) ==> reached("SetRecovery", 1) && resultof("SetRecovery", 1) == nil
+//@   assert_at SetRecovery#1 C11.mark_target [C11]: callarg0 == oldMaster && noPromoteEffects()
+//@   assert_at isSlavePermanentlyLost#1 C11.lost_args [C11]: callarg0 == oldMasterSlaveStatus && callarg1 == mostRecentGtidSet
+//@   assert_at return#* C06.succ_master [C06,C01]: result == nil ==> d_master == newMaster && resultof("SetMasterHost", 1, 1) == nil && e_SetMaster == old(e_SetMaster) + 1
+//@   assert_at SetWritable#1 C01.promote_host [C01]: newMasterNode != nil ==> newMasterNode.host == newMaster
+//@   assert_at return#* C06.succ_writable [C06,C01]: result == nil ==> !g_ro[newMaster] && resultof("SetWritable", 1) == nil && e_SetWritable == old(e_SetWritable) + 1
+//@   ensures C06.ps_switchkeys [C06]: e_CreateSwitch == old(e_CreateSwitch) && e_SetSwitch == old(e_SetSwitch) && e_SetLastSwitch == old(e_SetLastSwitch)
+
+//@ func (*app.App).optimizationPhase
+//@   requires nonnil [safety]: switchover != nil
+//@   ensures C06.opt_switchkeys [C06,C19]: e_CreateSwitch == old(e_CreateSwitch) && e_SetSwitch == old(e_SetSwitch) && e_SetLastSwitch == old(e_SetLastSwitch) && e_SetLastRejected <= old(e_SetLastRejected) + 1
+//@   ensures C06.opt_rejected [C06,C19]: e_SetLastRejected > old(e_SetLastRejected) ==> result != nil
+//@   ensures C06.opt_nopromote [C06,C01,C19]: noPromoteEffects() && e_ChangeMaster == old(e_ChangeMaster) && g_ro == old(g_ro) && g_sro == old(g_sro)
